@@ -136,7 +136,9 @@ type Mgr struct {
 	ready    bool
 	closed   bool
 	CloseSeq uint64 // seq when Close returned
+	closeInvokedAt time.Duration
 	nodeSrv  map[uint32]int
+	rawNodes []*gorums.RawNode // captured by the setup task (the driver must not call into the library)
 }
 
 // CfgRec is one configuration of a manager.
@@ -351,6 +353,9 @@ func (w *World) setupManager(m *Mgr) {
 			}
 		}
 		m.cfgs = append(m.cfgs, &CfgRec{cfg: cfg, Servers: srvs})
+	}
+	for _, n := range m.mgr.Nodes() {
+		m.rawNodes = append(m.rawNodes, n.RawNode)
 	}
 	m.ready = true
 	w.ev("manager-ready", "mgr=%d cfgs=%d", m.Idx, len(m.cfgs))
